@@ -444,6 +444,188 @@ theorem isOperating_markInactive (g : Group) (self idx : UInt8) (active : List N
   · rintro ⟨⟨⟨h1, h2⟩, h4⟩, h5⟩
     exact ⟨⟨h1, h2, Or.inr h5⟩, h4⟩
 
+/-! ## The follower's leader id (`wallet.membersByOperator(leader)[0]`) -/
+
+theorem positionsFrom_ge (ops : List Nat) (a start p : Nat) (h : p ∈ positionsFrom ops a start) : start ≤ p := by
+  induction ops generalizing start with
+  | nil => simp [positionsFrom] at h
+  | cons o rest ih =>
+    unfold positionsFrom at h
+    split at h
+    · simp only [List.mem_cons] at h
+      rcases h with h | h
+      · omega
+      · have := ih _ h; omega
+    · have := ih _ h; omega
+
+theorem positionsFrom_sorted (ops : List Nat) (a start : Nat) :
+    (positionsFrom ops a start).Pairwise (· < ·) := by
+  induction ops generalizing start with
+  | nil => simp [positionsFrom]
+  | cons o rest ih =>
+    unfold positionsFrom
+    split
+    · rw [List.pairwise_cons]
+      exact ⟨fun q hq => by have := positionsFrom_ge rest a (start + 1) q hq; omega, ih _⟩
+    · exact ih _
+
+theorem positionsFrom_spec (ops : List Nat) (a start p : Nat) :
+    p ∈ positionsFrom ops a start ↔ start ≤ p ∧ ops[p - start]? = some a := by
+  induction ops generalizing start with
+  | nil => simp [positionsFrom]
+  | cons o rest ih =>
+    have shift : ∀ {q}, start + 1 ≤ q → (o :: rest)[q - start]? = rest[q - (start + 1)]? := by
+      intro q hq
+      have : q - start = (q - (start + 1)) + 1 := by omega
+      rw [this]; simp
+    unfold positionsFrom
+    by_cases ho : o = a
+    · rw [if_pos ho, List.mem_cons, ih]
+      constructor
+      · rintro (rfl | ⟨h1, h2⟩)
+        · simp [ho]
+        · exact ⟨by omega, by rw [shift h1]; exact h2⟩
+      · rintro ⟨h1, h2⟩
+        by_cases hp : p = start
+        · exact Or.inl hp
+        · have h1' : start + 1 ≤ p := by omega
+          exact Or.inr ⟨h1', by rw [← shift h1']; exact h2⟩
+    · rw [if_neg ho, ih]
+      constructor
+      · rintro ⟨h1, h2⟩
+        exact ⟨by omega, by rw [shift h1]; exact h2⟩
+      · rintro ⟨h1, h2⟩
+        by_cases hp : p = start
+        · subst hp; simp at h2; exact absurd h2 ho
+        · have h1' : start + 1 ≤ p := by omega
+          exact ⟨h1', by rw [← shift h1']; exact h2⟩
+
+/-- the running minimum of `slices.Sort(...)[0]` -/
+theorem foldl_min_spec (xs : List UInt8) (x : UInt8) :
+    let r := xs.foldl (fun a b => if b.toNat < a.toNat then b else a) x
+    (r = x ∨ r ∈ xs) ∧ r.toNat ≤ x.toNat ∧ ∀ y ∈ xs, r.toNat ≤ y.toNat := by
+  induction xs generalizing x with
+  | nil => simp
+  | cons y ys ih =>
+    simp only [List.foldl_cons]
+    by_cases hc : y.toNat < x.toNat
+    · simp only [hc, if_true]
+      obtain ⟨h1, h2, h3⟩ := ih y
+      refine ⟨Or.inr ?_, by omega, ?_⟩
+      · rcases h1 with h1 | h1
+        · rw [h1]; simp
+        · exact List.mem_cons_of_mem _ h1
+      · intro z hz
+        simp only [List.mem_cons] at hz
+        rcases hz with rfl | hz
+        · exact h2
+        · exact h3 z hz
+    · simp only [hc, if_false]
+      obtain ⟨h1, h2, h3⟩ := ih x
+      refine ⟨?_, h2, ?_⟩
+      · rcases h1 with h1 | h1
+        · exact Or.inl h1
+        · exact Or.inr (List.mem_cons_of_mem _ h1)
+      · intro z hz
+        simp only [List.mem_cons] at hz
+        rcases hz with rfl | hz
+        · omega
+        · exact h3 z hz
+
+/-- `firstSeat_min` (every group size): the leader id is one of the leader's wrapped member indexes
+    `MemberIndex(p+1)` and is the smallest of them — what `slices.Sort(members)[0]` yields. -/
+theorem firstSeat_min (ops : List Nat) (leader : Nat) (s : UInt8) (h : firstSeat ops leader = some s) :
+    (∃ p ∈ positions ops leader, s = UInt8.ofNat (p + 1)) ∧
+    ∀ p ∈ positions ops leader, s.toNat ≤ (UInt8.ofNat (p + 1)).toNat := by
+  unfold firstSeat at h
+  split at h
+  · cases h
+  · rename_i x xs heq
+    simp only [Option.some.injEq] at h
+    have hs := foldl_min_spec xs x
+    simp only at hs
+    rw [h] at hs
+    obtain ⟨h1, h2, h3⟩ := hs
+    have hmem : s ∈ (positions ops leader).map (fun p => UInt8.ofNat (p + 1)) := by
+      rw [heq]; rcases h1 with h1 | h1
+      · rw [h1]; simp
+      · exact List.mem_cons_of_mem _ h1
+    constructor
+    · obtain ⟨p, hp, rfl⟩ := List.mem_map.1 hmem
+      exact ⟨p, hp, rfl⟩
+    · intro p hp
+      have : UInt8.ofNat (p + 1) ∈ x :: xs := by rw [← heq]; exact List.mem_map.2 ⟨p, hp, rfl⟩
+      simp only [List.mem_cons] at this
+      rcases this with h' | h'
+      · rw [h']; exact h2
+      · exact h3 _ h'
+
+theorem firstSeat_isSome_iff (ops : List Nat) (leader : Nat) :
+    (firstSeat ops leader).isSome = true ↔ leader ∈ ops := by
+  unfold firstSeat
+  constructor
+  · intro h
+    split at h
+    · cases h
+    · rename_i x xs heq
+      cases hp : positions ops leader with
+      | nil => rw [hp] at heq; cases heq
+      | cons p ps =>
+        have : p ∈ positionsFrom ops leader 0 := by unfold positions at hp; rw [hp]; simp
+        have := (positionsFrom_spec ops leader 0 p).1 this
+        exact List.mem_of_getElem? this.2
+  · intro h
+    obtain ⟨i, hi, hget⟩ := List.getElem_of_mem h
+    have : i ∈ positions ops leader :=
+      (positionsFrom_spec ops leader 0 i).2 ⟨by omega, by simp [List.getElem?_eq_getElem hi, hget]⟩
+    split
+    · rename_i heq
+      rw [List.map_eq_nil_iff] at heq
+      rw [heq] at this; cases this
+    · rfl
+
+/-- `firstSeat_le255`: with at most 255 seats the leader id is the leader operator's LOWEST member index:
+    seat `s` belongs to the leader and no lower seat does. -/
+theorem firstSeat_le255 (ops : List Nat) (leader : Nat) (s : UInt8) (hn : ops.length ≤ 255)
+    (h : firstSeat ops leader = some s) :
+    1 ≤ s.toNat ∧ s.toNat ≤ ops.length ∧ ops[s.toNat - 1]? = some leader ∧
+    ∀ j, j < s.toNat - 1 → ops[j]? ≠ some leader := by
+  obtain ⟨⟨p, hp, rfl⟩, hmin⟩ := firstSeat_min ops leader s h
+  have hspec : ∀ q, q ∈ positions ops leader ↔ ops[q]? = some leader := by
+    intro q
+    have := positionsFrom_spec ops leader 0 q
+    simpa [positions] using this
+  have hlt : ∀ q, q ∈ positions ops leader → q < ops.length := by
+    intro q hq
+    exact (List.getElem?_eq_some_iff.1 ((hspec q).1 hq)).1
+  have hw : ∀ q, q ∈ positions ops leader → (UInt8.ofNat (q + 1)).toNat = q + 1 := by
+    intro q hq
+    have := hlt q hq
+    rw [UInt8.toNat_ofNat']; omega
+  rw [hw p hp]
+  refine ⟨by omega, by have := hlt p hp; omega, by simpa using (hspec p).1 hp, ?_⟩
+  intro j hj hc
+  have hjm := (hspec j).2 hc
+  have := hmin j hjm
+  rw [hw p hp, hw j hjm] at this
+  omega
+
+/-- `follower_accepts_only_leader_seat`: the follower routine, with `leaderID` computed as the code does
+    (`membersByOperator(leader)[0]`), returns a proposal only for a message that claims the leader
+    operator's lowest seat, sent by the network key whose address is the leader (n ≤ 255). -/
+theorem follower_accepts_only_leader_seat (addr : Nat → Nat) (c : Ctx) (m : Msg) (leader : Nat)
+    (hn : c.ops.length ≤ 255) (hl : firstSeat c.ops leader = some c.leaderID)
+    (h : admitMsg addr .follower c m = .stored) :
+    addr m.netKey = leader ∧ c.ops[m.idx.toNat - 1]? = some leader ∧
+    (∀ j, j < m.idx.toNat - 1 → c.ops[j]? ≠ some leader) ∧
+    m.action ∈ c.allowed ∧ m.idx ∉ c.selfs := by
+  obtain ⟨hid, hact, hself, hv, _, _⟩ := follower_accepts_only_leader addr c m h
+  obtain ⟨_, _, hseat, hlow⟩ := firstSeat_le255 c.ops leader c.leaderID hn hl
+  have hctl := (valid_membership_iff c.ops m.idx (addr m.netKey) hn).1 hv
+  rw [hid] at hctl ⊢
+  have : some (addr m.netKey) = some leader := by rw [← hctl.2.2, hseat]
+  exact ⟨by simpa using this, hseat, hlow, hact, by rw [← hid]; exact hself⟩
+
 /-! ## Non-vacuity and monitor sanity -/
 
 def exCtx : Ctx :=
